@@ -720,7 +720,10 @@ class Ref:
             if ((a == 0) & (b <= 0)).any():
                 raise NonFinite('arctan2 on its branch cut (depends on the sign of zero)')
             return numpy.arctan2(a, b)
-        if op == 'pow': return numpy.power(abs(C(0)) + .5, C(1))
+        if op == 'pow':
+            if self.smooth and (C(0) == 0).any():
+                raise NonFinite('abs at zero is not differentiable')
+            return numpy.power(abs(C(0)) + .5, C(1))
         if op == 'guard': return C(0)
         if op == 'abs': return numpy.abs(C(0))
         if op == 'sign': return numpy.sign(C(0))
@@ -740,6 +743,8 @@ class Ref:
             return numpy.power(C(0), p['e'])
         if op == 'unary':
             x = C(0); f = p['f']
+            if self.smooth and f in ('log1pabs', 'sqrtabs', 'recip_s') and (x == 0).any():
+                raise NonFinite('abs at zero is not differentiable')
             if f == 'log1pabs': return numpy.log(abs(x) + 1)
             if f in ('arcsin_t', 'arccos_t') and self.smooth and (abs(numpy.tanh(x)) > 1 - 1e-9).any():
                 raise NonFinite('arcsin/arccos at the end of its domain is not differentiable')
